@@ -276,7 +276,22 @@ def weave_sleep(src):
         last = b
     out.append(src[last:])
     if count == 0:
-        raise ValueError("no time.Sleep( call in trace_observer.go: the back-off is implemented some other way now")
+        # the back-off is no longer a sleep: weave the timers instead (verifNewTimer / verifAfter make a timer of a
+        # second or more, started by the worker goroutine, fire on the scenario's wake)
+        if "verifNewTimer" in src or "verifAfter" in src:
+            raise ValueError("the source already contains the identifier verifNewTimer / verifAfter")
+        pat2 = re.compile(r"\btime\s*\.\s*(NewTimer|After)\s*\(")
+        out, last = [], 0
+        for a, b in code_spans(src):
+            out.append(src[last:a])
+            seg, k = pat2.subn(lambda m: "verif%s(" % m.group(1), src[a:b])
+            count += k
+            out.append(seg)
+            last = b
+        out.append(src[last:])
+        if count == 0:
+            raise ValueError("neither a time.Sleep( call nor a timer in trace_observer.go: the back-off is implemented "
+                             "some other way now")
     return "".join(out), count
 
 
